@@ -262,20 +262,24 @@ package part
 //@   flag nosafety
 //@   requires txn != nil
 //@   atcall Iterator.All@1 requires @bump-before-the-consumer-runs txn.txnID == old(txn.txnID) + 1
+//@   atcall Iterator.All@1 requires @over-the-transactions-root $0.start == txn.root
 //@ func (*Txn).Iterator
 //@   property C01 C02 C06 C11 C12 C17
 //@   requires txn != nil
 //@   atcall newIterator@1 requires @bump-before-escape txn.txnID == old(txn.txnID) + 1
+//@   atcall newIterator@1 requires @over-the-transactions-root $0 == txn.root
 //@   ensures txn.txnID == old(txn.txnID) + 1
 //@ func (*Txn).Prefix
 //@   property C01 C02 C06 C11 C12 C17
 //@   requires txn != nil
 //@   atcall prefixSearch@1 requires @bump-before-escape txn.txnID == old(txn.txnID) + 1
+//@   atcall prefixSearch@1 requires @over-the-transactions-root-callers-key $0 == txn.root && $1 == txn.rootWatch && $2 == key
 //@   ensures txn.txnID == old(txn.txnID) + 1
 //@ func (*Txn).LowerBound
 //@   property C01 C02 C06 C11 C12 C17
 //@   requires txn != nil
 //@   atcall lowerbound@1 requires @bump-before-escape txn.txnID == old(txn.txnID) + 1
+//@   atcall lowerbound@1 requires @over-the-transactions-root-callers-key $0 == txn.root && $1 == key
 //@   ensures txn.txnID == old(txn.txnID) + 1
 
 // cloneNode: the result is owned by the transaction; if a copy had to be made, the original's
@@ -523,3 +527,145 @@ package part
 //@   flag dyncall.toBytes=pure
 //@   flag dyncall.bytesFromKeyFunc=pure
 //@   loop 1 invariant txn != nil && txn.prevTxn != nil
+
+// ---------------------------------------------------------------------------
+// Thin public layer of Tree and Txn (C11, C17, C01, C12): each query goes to the receiver's own
+// root (and root channel) with the caller's key; each write goes through the one worker with
+// the transaction's current root and the caller's key and value, the size follows the
+// "had an old value" answer, and in root-only mode the channel handed back is the root's.
+//@ func search
+//@   trusted
+//@   pure
+//@ func (*Tree).Len
+//@   property C11 C17
+//@   pure
+//@   requires t != nil
+//@   ensures result == t.size
+//@ func (*Txn).Len
+//@   property C11 C17
+//@   pure
+//@   requires txn != nil
+//@   ensures result == txn.size
+//@ func (*Tree).RootWatch
+//@   property C12 C06
+//@   pure
+//@   requires t != nil
+//@   ensures result == t.rootWatch
+//@ func (*Txn).RootWatch
+//@   property C12 C06
+//@   pure
+//@   requires txn != nil
+//@   ensures result == txn.rootWatch
+//@ func (*Tree).Get
+//@   property C11 C12 C17
+//@   flag nosafety
+//@   requires t != nil
+//@   atcall search@1 requires @own-root-callers-key $0 == t.root && $1 == t.rootWatch && $2 == key
+//@   mustcall search@1 when @always true
+//@ func (*Txn).Get
+//@   property C11 C12 C17
+//@   flag nosafety
+//@   requires txn != nil
+//@   atcall search@1 requires @own-root-callers-key $0 == txn.root && $1 == txn.rootWatch && $2 == key
+//@   mustcall search@1 when @always true
+//@ func (*Tree).Prefix
+//@   property C11 C12 C17
+//@   flag nosafety
+//@   requires t != nil
+//@   atcall prefixSearch@1 requires @own-root-callers-key $0 == t.root && $1 == t.rootWatch && $2 == prefix
+//@   mustcall prefixSearch@1 when @always true
+//@ func (*Tree).LowerBound
+//@   property C11 C17
+//@   flag nosafety
+//@   requires t != nil
+//@   atcall lowerbound@1 requires @own-root-callers-key $0 == t.root && $1 == key
+//@   mustcall lowerbound@1 when @always true
+//@ func (*Tree).Iterator
+//@   property C11 C17
+//@   flag nosafety
+//@   requires t != nil
+//@   atcall newIterator@1 requires @own-root $0 == t.root
+//@   mustcall newIterator@1 when @always true
+//@ func (*Tree).All
+//@   property C11 C17
+//@   flag nosafety
+//@   requires t != nil
+//@   atcall Iterator.All@1 requires @own-root $0.start == t.root
+//@   mustcall Iterator.All@1 when @always true
+//@ func (*Txn).insert
+//@   property C11 C17 C12
+//@   flag nosafety
+//@   flag assumepre=tree-representation-invariant
+//@   atcall (*Txn).modify@1 requires @plain-write-of-the-callers-key-and-value $0 == txn && $1 == root && $2 == key && $3 == value
+//@   mustcall (*Txn).modify@1 when @always true
+//@ func (*Txn).Insert
+//@   property C11 C17
+//@   flag nosafety
+//@   flag assumepre=tree-representation-invariant
+//@   atcall (*Txn).InsertWatch@1 requires @same-key-and-value $0 == txn && $1 == key && $2 == value
+//@   mustcall (*Txn).InsertWatch@1 when @always true
+//@ func (*Txn).Modify
+//@   property C11 C17
+//@   flag nosafety
+//@   flag assumepre=tree-representation-invariant
+//@   atcall (*Txn).ModifyWatch@1 requires @same-key-and-value $0 == txn && $1 == key && $2 == value
+//@   mustcall (*Txn).ModifyWatch@1 when @always true
+//@ func (*Txn).InsertWatch returns (old, hadOld, watch)
+//@   property C11 C17 C12 C06
+//@   flag nosafety
+//@   flag assumepre=tree-representation-invariant
+//@   requires txn != nil
+//@   atcall (*Txn).insert@1 requires @from-the-current-root-callers-key-and-value $0 == txn && $1 == txn.root && $2 == key && $3 == value
+//@   mustcall (*Txn).insert@1 when @always true
+//@   ensures @size-follows-had-old txn.size == old(txn.size) + (hadOld ? 0 : 1)
+//@   ensures @root-only-mode-hands-out-the-root-channel rootOnly(txn.opts) ==> watch == txn.rootWatch
+//@ func (*Txn).ModifyWatch returns (old, newValue, hadOld, watch)
+//@   property C11 C17 C12 C06
+//@   flag nosafety
+//@   flag dyncall.mod=pure
+//@   flag assumepre=tree-representation-invariant
+//@   requires txn != nil
+//@   atcall (*Txn).modify@1 requires @from-the-current-root-callers-key-and-value $0 == txn && $1 == txn.root && $2 == key && $3 == value
+//@   mustcall (*Txn).modify@1 when @always true
+//@   ensures @size-follows-had-old txn.size == old(txn.size) + (hadOld ? 0 : 1)
+//@   ensures @root-only-mode-hands-out-the-root-channel rootOnly(txn.opts) ==> watch == txn.rootWatch
+//@ func (*Txn).Delete returns (old, hadOld)
+//@   property C11 C17 C12
+//@   flag nosafety
+//@   flag assumepre=tree-representation-invariant
+//@   requires txn != nil
+//@   atcall (*Txn).delete@1 requires @from-the-current-root-callers-key $0 == txn && $1 == txn.root && $2 == key
+//@   mustcall (*Txn).delete@1 when @always true
+//@   ensures @size-follows-had-old txn.size == old(txn.size) - (hadOld ? 1 : 0)
+//@ func (*Txn).CommitAndNotify
+//@   property C11 C17 C12 C06
+//@   flag nosafety
+//@   maypanic
+//@   flag assumepre=tree-representation-invariant
+//@   mustcall (*Txn).Notify@1 when @always true
+//@   mustcall (*Txn).Commit@1 when @always true
+//@ func (*Tree).Insert returns (old, hadOld, tree)
+//@   property C11 C17 C12
+//@   flag nosafety
+//@   maypanic
+//@   flag assumepre=tree-representation-invariant
+//@   atcall (*Txn).Insert@1 requires @same-key-and-value $1 == key && $2 == value
+//@   mustcall (*Txn).Insert@1 when @always true
+//@   mustcall (*Txn).CommitAndNotify@1 when @always true
+//@ func (*Tree).Modify returns (old, hadOld, tree)
+//@   property C11 C17 C12
+//@   flag nosafety
+//@   maypanic
+//@   flag dyncall.mod=pure
+//@   flag assumepre=tree-representation-invariant
+//@   atcall (*Txn).Modify@1 requires @same-key-and-value $1 == key && $2 == value
+//@   mustcall (*Txn).Modify@1 when @always true
+//@   mustcall (*Txn).CommitAndNotify@1 when @always true
+//@ func (*Tree).Delete returns (old, hadOld, tree)
+//@   property C11 C17 C12
+//@   flag nosafety
+//@   maypanic
+//@   flag assumepre=tree-representation-invariant
+//@   atcall (*Txn).Delete@1 requires @same-key $1 == key
+//@   mustcall (*Txn).Delete@1 when @always true
+//@   mustcall (*Txn).CommitAndNotify@1 when @always true
